@@ -418,6 +418,89 @@ func c13CID(r *run.Run) {
 		})
 }
 
+// run lengths: the range-based formats (charset 1 / 2, FDSelect 3, encoding 1) pack runs into records
+// with 8- and 16-bit counts, and readers fetch the records in bulk
+func c13Runs(r *run.Run) {
+	runLens := []int{1, 2, 255, 256, 257, 511, 512, 513, 768}
+	periods := []int{1, 2, 3, 4, 5, 8}
+	r.Explore(explore.Config{Name: "C13.runs"},
+		"CID-keyed fonts with a run of {1,2,255,256,257,511,512,513,768} consecutive CIDs followed by isolated CIDs, or 1500 glyphs whose font dictionary changes every {1,2,3,4,5,8} glyphs (up to 1500 FDSelect ranges); simple fonts with such a run of custom glyph names followed by standard names: Read(Write(F)) == F, the independent reader sees the same charset / FDSelect",
+		func(c *explore.Ctx) {
+			family := c.Choose(3, "family")
+			var f *cff.Font
+			var desc string
+			var sel []int
+			switch family {
+			case 0: // CID runs
+				run := runLens[c.Choose(len(runLens), "run length")]
+				start := explore.Pick(c, "first CID of the run", 1, 100)
+				f = &cff.Font{FontInfo: c13Info(), Outlines: &cff.Outlines{ROS: &cid.SystemInfo{Registry: "Adobe", Ordering: "Identity"}, Private: []*type1.PrivateDict{c13Priv(0)}, FontMatrices: []matrix.Matrix{matrix.Identity}, FDSelect: func(glyph.ID) int { return 0 }}}
+				cids := []int{0}
+				for i := 0; i < run; i++ {
+					cids = append(cids, start+i)
+				}
+				cids = append(cids, start+run+10, start+run+12, start+run+14)
+				for i, cd := range cids {
+					f.Glyphs = append(f.Glyphs, c13Glyph("", float64(500+i%7), i%5+1))
+					f.GIDToCID = append(f.GIDToCID, cid.CID(cd))
+				}
+				desc = fmt.Sprintf("CID-keyed, CIDs 0, %d..%d, then 3 isolated ones", start, start+run-1)
+			case 1: // FDSelect ranges
+				per := periods[c.Choose(len(periods), "glyphs per font dictionary run")]
+				n := explore.Pick(c, "glyphs", 1500, 700)
+				f = &cff.Font{FontInfo: c13Info(), Outlines: &cff.Outlines{ROS: &cid.SystemInfo{Registry: "Adobe", Ordering: "Identity"}}}
+				for k := 0; k < 3; k++ {
+					f.Private = append(f.Private, c13Priv(k))
+					f.FontMatrices = append(f.FontMatrices, matrix.Identity)
+				}
+				sel = make([]int, n)
+				for i := range sel {
+					sel[i] = i / per % 3
+					f.Glyphs = append(f.Glyphs, c13Glyph("", float64(500+i%7), i%5+1))
+					f.GIDToCID = append(f.GIDToCID, cid.CID(i))
+				}
+				selCopy := sel
+				f.FDSelect = func(g glyph.ID) int { return selCopy[g] }
+				desc = fmt.Sprintf("CID-keyed, %d glyphs, font dictionary changes every %d glyphs (%d ranges)", n, per, (n+per-1)/per)
+			default: // simple font: custom names (consecutive new string ids), then standard names
+				run := runLens[c.Choose(len(runLens), "run length")]
+				f = &cff.Font{FontInfo: c13Info(), Outlines: &cff.Outlines{Private: []*type1.PrivateDict{c13Priv(0)}, FDSelect: func(glyph.ID) int { return 0 }}}
+				f.Glyphs = append(f.Glyphs, c13Glyph(".notdef", 500, 1))
+				for i := 0; i < run; i++ {
+					f.Glyphs = append(f.Glyphs, c13Glyph(fmt.Sprintf("custom%04d", i), float64(500+i%7), i%5+1))
+				}
+				for i, nm := range []string{"A", "C", "space", "zero"} {
+					f.Glyphs = append(f.Glyphs, c13Glyph(nm, 600, i+1))
+				}
+				f.Encoding = cff.StandardEncoding(f.Glyphs)
+				desc = fmt.Sprintf("simple font, %d custom names then 4 standard names", run)
+			}
+			c.Sample(func() any { return desc })
+			c.Nontrivial()
+			rf, g := c13Roundtrip(c, "runs", f, desc)
+			if g == nil {
+				return
+			}
+			c13Compare(c, "runs", f, g, desc)
+			if rf != nil && sel != nil && rf.FDSelect != nil {
+				for i := 0; i < len(sel) && i < len(rf.FDSelect); i++ {
+					if rf.FDSelect[i] != sel[i] {
+						c.Fail("C13.structure", "runs / fdselect", "independent reader sees FD %d for glyph %d, want %d; %v", rf.FDSelect[i], i, sel[i], desc)
+						break
+					}
+				}
+			}
+			if rf != nil && f.GIDToCID != nil && rf.Charset != nil {
+				for i := 0; i < len(f.GIDToCID) && i < len(rf.Charset); i++ {
+					if rf.Charset[i] != int(f.GIDToCID[i]) {
+						c.Fail("C13.structure", "runs / charset", "independent reader sees CID %d for glyph %d, want %d; %v", rf.Charset[i], i, f.GIDToCID[i], desc)
+						break
+					}
+				}
+			}
+		})
+}
+
 func c13Numbers(r *run.Run) {
 	ints := []int32{0, 107, 108, -107, -108, 1131, 1132, -1131, -1132, 32767, 32768, -32768, -32769, 1<<31 - 1, -1 << 31}
 	reals := []float64{0.5, 0.001, 0.039625, 1e-5, 123456789, 1.23456789e-20, -7.5e12, 0.1, -0.25, 3.0e-3, 1e10}
@@ -539,6 +622,7 @@ func init() {
 		c13Simple(r)
 		c13Sizes(r)
 		c13CID(r)
+		c13Runs(r)
 		c13Numbers(r)
 		c13Widths(r)
 	})
